@@ -548,6 +548,255 @@ func c15OverwriteDuringHandoff(r *Run, idx int) {
 	r.Distinct("overwrite-during-handoff/" + kind)
 }
 
+// c15UpdateOvertakesPromotion: a Get promotes a key from the secondary store; its policy event (which marks the
+// entry "the secondary store holds this value") is delayed at hook H1, after the entry is in the map. A Set
+// overwrites the key meanwhile - its own event reaches the policy first - and invalidates the secondary copy.
+// Then the promotion's event arrives. When the entry is evicted afterwards, the overwritten value must be handed
+// to the secondary store: that store no longer holds anything identical.
+func c15UpdateOvertakesPromotion(r *Run, idx int) {
+	kind := []string{"hybrid", "hybrid-loading"}[idx%2]
+	bar := &secBarrier{}
+	var target atomic.Int64
+	parked, release := make(chan struct{}, 1), make(chan struct{}, 1)
+	internal.VerifSetHook(func(id int) {
+		bar.hook(id)
+		if id == internal.VPBeforeEvent && target.Load() != 0 && goid() == target.Load() {
+			target.Store(0)
+			parked <- struct{}{}
+			<-release
+		}
+	})
+	defer internal.VerifSetHook(nil)
+	defer r.Eval(1)
+	var loads atomic.Int64
+	a, err := newAnyCache(kind, anyOpts{MaxSize: 50, KeepLog: true, Workers: 1, Prob: 1, ProbSet: true,
+		Loader: func(ctx context.Context, k int) (theine.Loaded[int64], error) {
+			return theine.Loaded[int64]{Value: 8_500_000 + loads.Add(1), Cost: 1}, nil
+		}})
+	if err != nil {
+		r.Broken("build: %v", err)
+		return
+	}
+	defer a.store().Close()
+	k := 700 + idx
+	v1, v2 := int64(idx)<<8|1, int64(idx)<<8|2
+	a.set(k, v1, 1, 0)
+	a.wait()
+	if !bar.demote(a, k) {
+		r.Inconclusive(1)
+		return
+	}
+	getDone := make(chan struct{})
+	go func() {
+		target.Store(goid())
+		_, _, _ = a.get(context.Background(), k)
+		close(getDone)
+	}()
+	select {
+	case <-parked:
+	case <-getDone: // answered without reaching the hook (e.g. the promotion did not happen)
+		r.Inconclusive(1)
+		return
+	case <-time.After(10 * time.Second):
+		target.Store(0)
+		r.Inconclusive(1)
+		return
+	}
+	okSet := a.set(k, v2, 1, 0)
+	a.wait() // the Set's own event is applied while the promotion's event is still held back
+	release <- struct{}{}
+	<-getDone
+	a.wait()
+	if !okSet {
+		return
+	}
+	if !bar.demote(a, k) {
+		c15Unsettled(r, a, fmt.Sprintf("update-overtakes-promotion %d (%s)", idx, kind))
+		return
+	}
+	r.Count("updates_overtaking_a_promotion", 1)
+	l0 := loads.Load()
+	v, ok, gerr := a.get(context.Background(), k)
+	ran := loads.Load() > l0
+	if gerr != nil || !ok || ran || v != v2 {
+		key := "evicted-entry-not-retrievable"
+		if ran {
+			key += "/reloaded-instead"
+		}
+		if ok && !ran && v == v1 {
+			key = "retrieved-wrong-value"
+		}
+		r.Violate(key+"/updated-between-promotion-and-its-policy-event", fmt.Sprintf("%s cache: key %d (value %d) was demoted; a Get promoted it and was held back just before sending its policy event; Set(%d,%d) returned true and its event was applied; the Get was released; the entry was then evicted with the hand-off processed; Get returned (%d,%v,err=%v), loader ran: %v; in secondary store now: %s",
+			kind, k, v1, k, v2, v, ok, gerr, ran, secHas(a, k)), map[string]any{"cache": kind, "secondary_log": tailLog(a.sec.log(), 10)})
+	}
+	r.Distinct("update-overtakes-promotion/" + kind)
+}
+
+// c15EvictionOvertakesUpdate: a key is promoted from the secondary store (its entry is marked "the store holds this
+// value"); a Set overwrites it in place and invalidates the store's copy, but the Set's policy event - which would
+// clear the mark - is held back at hook H1; the entry is evicted meanwhile. The overwritten value must be handed to
+// the secondary store all the same: nothing identical is held there.
+func c15EvictionOvertakesUpdate(r *Run, idx int) {
+	kind := []string{"hybrid", "hybrid-loading"}[idx%2]
+	bar := &secBarrier{}
+	var target atomic.Int64
+	parked, release := make(chan struct{}, 1), make(chan struct{}, 1)
+	internal.VerifSetHook(func(id int) {
+		bar.hook(id)
+		if id == internal.VPBeforeEvent && target.Load() != 0 && goid() == target.Load() {
+			target.Store(0)
+			parked <- struct{}{}
+			<-release
+		}
+	})
+	defer internal.VerifSetHook(nil)
+	defer r.Eval(1)
+	var loads atomic.Int64
+	a, err := newAnyCache(kind, anyOpts{MaxSize: 50, KeepLog: true, Workers: 1, Prob: 1, ProbSet: true,
+		Loader: func(ctx context.Context, k int) (theine.Loaded[int64], error) {
+			return theine.Loaded[int64]{Value: 8_700_000 + loads.Add(1), Cost: 1}, nil
+		}})
+	if err != nil {
+		r.Broken("build: %v", err)
+		return
+	}
+	defer a.store().Close()
+	st := a.store()
+	k := 900 + idx
+	v1, v2 := int64(idx)<<8|1, int64(idx)<<8|2
+	a.set(k, v1, 1, 0)
+	a.wait()
+	if !bar.demote(a, k) {
+		r.Inconclusive(1)
+		return
+	}
+	if v, ok, _ := a.get(context.Background(), k); !ok || v != v1 { // promotion; its event is applied below
+		r.Inconclusive(1)
+		return
+	}
+	a.wait()
+	setDone := make(chan bool, 1)
+	go func() {
+		target.Store(goid())
+		setDone <- a.set(k, v2, 1, 0)
+	}()
+	select {
+	case <-parked:
+	case ok := <-setDone:
+		_ = ok
+		r.Inconclusive(1)
+		return
+	case <-time.After(10 * time.Second):
+		target.Store(0)
+		r.Inconclusive(1)
+		return
+	}
+	// the Set has replaced the value in the map and invalidated the secondary copy; its event is still held back
+	evicted := st.VerifEvict(k)
+	a.wait()
+	release <- struct{}{}
+	okSet := <-setDone
+	if !bar.settle(a) {
+		c15Unsettled(r, a, fmt.Sprintf("eviction-overtakes-update %d (%s)", idx, kind))
+		return
+	}
+	if !okSet || !evicted {
+		return
+	}
+	r.Count("evictions_overtaking_an_update", 1)
+	if st.VerifResident(k) {
+		if !bar.demote(a, k) { // still resident (the eviction found nothing to do): evict now
+			r.Inconclusive(1)
+			return
+		}
+	}
+	l0 := loads.Load()
+	v, ok, gerr := a.get(context.Background(), k)
+	ran := loads.Load() > l0
+	if gerr != nil || !ok || ran || v != v2 {
+		key := "evicted-entry-not-retrievable"
+		if ran {
+			key += "/reloaded-instead"
+		}
+		if ok && !ran && v == v1 {
+			key = "retrieved-wrong-value"
+		}
+		r.Violate(key+"/evicted-between-an-in-place-update-and-its-policy-event", fmt.Sprintf("%s cache: key %d (value %d) was demoted and promoted again; Set(%d,%d) replaced the value and invalidated the secondary copy, its policy event was held back; the entry was evicted; the Set was released and returned true; all hand-offs processed; Get returned (%d,%v,err=%v), loader ran: %v; in secondary store now: %s",
+			kind, k, v1, k, v2, v, ok, gerr, ran, secHas(a, k)), map[string]any{"cache": kind, "secondary_log": tailLog(a.sec.log(), 10)})
+	}
+	r.Distinct("eviction-overtakes-update/" + kind)
+}
+
+// c15PooledReuse: with the entry pool on, entry objects go back to the pool when they leave memory and are handed out
+// again for other keys. Keys are demoted, promoted again and evicted (their entries return to the pool carrying
+// whatever marks they had); then fresh keys are stored - drawing recycled entries - and evicted: each must be found
+// in the secondary store afterwards. Sequential, so no event can overtake another.
+func c15PooledReuse(r *Run, idx int) {
+	kind := []string{"hybrid", "hybrid-loading"}[idx%2]
+	bar := &secBarrier{}
+	internal.VerifSetHook(bar.hook)
+	defer internal.VerifSetHook(nil)
+	defer r.Eval(1)
+	defer r.Case(fmt.Sprintf("pooled-reuse %d kind=%s pool=true", idx, kind))()
+	var loads atomic.Int64
+	a, err := newAnyCache(kind, anyOpts{MaxSize: 200, KeepLog: true, Workers: 1, Prob: 1, ProbSet: true, Pool: true,
+		Loader: func(ctx context.Context, k int) (theine.Loaded[int64], error) {
+			return theine.Loaded[int64]{Value: 8_900_000 + loads.Add(1), Cost: 1}, nil
+		}})
+	if err != nil {
+		r.Broken("build: %v", err)
+		return
+	}
+	defer a.store().Close()
+	const n = 40
+	for k := 0; k < n; k++ { // first lives: stored, demoted, promoted (marked clean), evicted again
+		a.set(k, int64(k)+1, 1, 0)
+	}
+	a.wait()
+	for k := 0; k < n; k++ {
+		if !bar.demote(a, k) {
+			r.Inconclusive(1)
+			return
+		}
+	}
+	for k := 0; k < n; k++ {
+		_, _, _ = a.get(context.Background(), k)
+	}
+	a.wait()
+	for k := 0; k < n; k++ {
+		if !bar.demote(a, k) {
+			r.Inconclusive(1)
+			return
+		}
+	}
+	lost, first := 0, ""
+	for k := 1000; k < 1000+n; k++ { // second lives: fresh keys in recycled entries
+		v := int64(k)<<8 | 9
+		if !a.set(k, v, 1, 0) {
+			continue
+		}
+		a.wait()
+		if !bar.demote(a, k) {
+			r.Inconclusive(1)
+			return
+		}
+		l0 := loads.Load()
+		got, ok, gerr := a.get(context.Background(), k)
+		if gerr != nil || !ok || loads.Load() > l0 || got != v {
+			lost++
+			if first == "" {
+				first = fmt.Sprintf("key %d (value %d): Get after its demotion returned (%d,%v,err=%v), loader ran: %v, in secondary store: %s", k, v, got, ok, gerr, loads.Load() > l0, secHas(a, k))
+			}
+		}
+	}
+	if lost > 0 {
+		r.Violate("evicted-entry-not-retrievable/entry-pool/fresh-key-in-a-recycled-entry", fmt.Sprintf("%s cache with the entry pool on: %d keys were demoted, promoted and evicted again; then %d fresh keys were stored and evicted with the hand-off processed: %d of them were not retrievable (first: %s)", kind, n, n, lost, first),
+			map[string]any{"cache": kind, "lost": lost})
+	}
+	r.Count("pooled_reuse_rounds", 1)
+	r.Distinct("pooled-reuse/" + kind)
+}
+
 // c15Unsettled is called when the hand-off barrier never settles (writes applied, yet enqueued != processed after
 // the generous bound). That alone is inconclusive - unless the goroutine dump shows why: the cache is open and fewer
 // hand-off workers exist than it was built with (workers of caches closed earlier can only add to the count, never
@@ -595,6 +844,9 @@ func runC15(r *Run) {
 	for i := 0; i < no; i++ {
 		if i%r.NShards == r.Shard {
 			c15OverwriteDuringHandoff(r, i)
+			c15UpdateOvertakesPromotion(r, i)
+			c15EvictionOvertakesUpdate(r, i)
+			c15PooledReuse(r, i)
 		}
 	}
 }
